@@ -185,6 +185,9 @@ def handle : List String → Option String
     let _ ← decSegs segs
     -- the model's steps are atomic: it cannot exhibit a data race
     some "ok races=0"
+  | ["classifyv", v] => do
+    let v ← unhex v
+    some ("ok " ++ b01 (rangeSyntax v))
   | ["classify", t] => do
     let t ← unhex t
     some ("ok " ++ b01 (hasRange t))
